@@ -952,6 +952,99 @@ fn make_line(g: &Gen, r: &mut Rng, run: &mut Run, kind: u64) -> Line {
     Line { text, outcome, stats: r.chance(1, 4), cw: r.chance(1, 2), bump_w: if r.chance(1, 6) { r.below(3) as u32 } else { 0 }, bump_m: if r.chance(1, 8) { 1 } else { 0 } }
 }
 
+
+// ------------------------------------------------------------------ the real Unix control socket
+/// One socket case: the same non-subscription lines go (a) to the stdin dispatcher one by one on a twin
+/// configuration and (b) to a LIVE `control_socket` listener, written in a few arbitrary chunks (several
+/// lines per write, writes ending mid-line).  Returns the `CSock` literal.
+fn socket_case(g: &Gen, r: &mut Rng, run: &mut Run, rt: &tokio::runtime::Runtime, k: usize) -> Option<String> {
+    use std::io::{Read, Write};
+    use std::time::{Duration, Instant};
+    let init = gen_init(r, &g.tmo_pool);
+    let (cfg_std, cfg_sock) = (catch(AssertUnwindSafe(|| build(&init)))?, catch(AssertUnwindSafe(|| build(&init)))?);
+    let mut texts: Vec<String> = vec![];
+    let n = r.range(2, 9) as usize;
+    while texts.len() < n {
+        let kind = match r.below(100) { 0..=79 => 0, 80..=89 => 3, _ => 4 };
+        let l = make_line(g, r, run, kind);
+        let t = l.text.replace('\n', " ");
+        // subscription methods and get_stats are outside the "answer identically" clause; the method name may
+        // be written with escapes, so the decoded tree is searched, not the text
+        fn mentions(j: &J) -> bool {
+            match j {
+                J::Str(x) => x.contains("subscri") || x.contains("get_stats"),
+                J::Arr(l) => l.iter().any(mentions),
+                J::Obj(m) => m.iter().any(|(k, v)| k.contains("subscri") || k.contains("get_stats") || mentions(v)),
+                _ => false,
+            }
+        }
+        if let Outcome::Parsed(j) = &l.outcome { if mentions(j) { continue; } }
+        if t.contains("subscri") || t.contains("get_stats") || t.len() > 1500 { continue; }
+        texts.push(t);
+    }
+    texts.push(r#"{"jsonrpc":"2.0","id":"end-of-case","method":"get_status"}"#.to_string());
+    // (a) stdin entry
+    let (stats_a, cw_a) = (SharedStats::new(), CriticalWindow::new());
+    let mut want: Vec<J> = vec![];
+    for t in &texts {
+        let resp = catch(AssertUnwindSafe(|| dispatch(&cfg_std, Some(&stats_a), Some(&cw_a), t).map(|x| x.to_json())))?;
+        if let Some(j) = resp_tree(resp) { want.push(j); }
+    }
+    // (b) socket entry
+    let path = run.out.join(format!("s{}.sock", k));
+    let _ = std::fs::remove_file(&path);
+    let task = {
+        let _g = rt.enter();
+        srtla_send::control_socket::spawn(path.to_string_lossy().into_owned(), cfg_sock.clone(), SharedStats::new(),
+                                          CriticalWindow::new(), SubscriptionHub::new())
+    };
+    let mut stream = None;
+    for _ in 0..400 {
+        if let Ok(st) = std::os::unix::net::UnixStream::connect(&path) { stream = Some(st); break; }
+        std::thread::sleep(Duration::from_millis(5));
+    }
+    let mut got: Vec<J> = vec![];
+    if let Some(mut st) = stream {
+        let all = format!("{}\n", texts.join("\n")).into_bytes();
+        let mut cuts: Vec<usize> = (0..r.below(4)).map(|_| r.below(all.len() as u64 + 1) as usize).collect();
+        cuts.push(all.len());
+        cuts.sort();
+        let mut at = 0;
+        for c in cuts {
+            if c > at { let _ = st.write_all(&all[at..c]); let _ = st.flush(); at = c; std::thread::sleep(Duration::from_millis(2)); }
+        }
+        run.count_n("socket:lines_written", texts.len() as u64);
+        let _ = st.set_read_timeout(Some(Duration::from_millis(50)));
+        let mut buf: Vec<u8> = vec![];
+        let mut tmp = [0u8; 4096];
+        let t0 = Instant::now();
+        let mut quiet_since = Instant::now();
+        loop {
+            match st.read(&mut tmp) {
+                Ok(0) => break,
+                Ok(m) => { buf.extend_from_slice(&tmp[..m]); quiet_since = Instant::now(); }
+                Err(_) => {}
+            }
+            let have = buf.iter().filter(|b| **b == b'\n').count();
+            // all expected answers are in and the line has been quiet for a moment, or the server stays silent
+            if have >= want.len() && quiet_since.elapsed() > Duration::from_millis(60) { break; }
+            if quiet_since.elapsed() > Duration::from_millis(1500) || t0.elapsed() > Duration::from_secs(10) { break; }
+        }
+        for line in String::from_utf8_lossy(&buf).split('\n') {
+            if line.trim().is_empty() { continue; }
+            if let Some(j) = resp_tree(Some(line.to_string())) { got.push(j); }
+        }
+    } else {
+        run.note("control socket never came up".into());
+    }
+    task.abort();
+    let _ = std::fs::remove_file(&path);
+    let same = coq_snap(&cfg_std.snapshot()) == coq_snap(&cfg_sock.snapshot());
+    if got.len() != want.len() { run.count("socket:response_count_differs"); }
+    Some(format!("CSock [{}] [{}] {}", want.iter().map(coq_j).collect::<Vec<_>>().join(";"),
+                 got.iter().map(coq_j).collect::<Vec<_>>().join(";"), boolc(same)))
+}
+
 fn pick_kind(r: &mut Rng) -> u64 {
     match r.below(100) { 0..=64 => 0, 65..=76 => 1, 77..=79 => 2, 80..=95 => 3, _ => 4 }
 }
@@ -1073,6 +1166,14 @@ pub fn run(seed: u64, tier: &str, out: &Path, _extra: &[(String, String)]) -> st
         let text = race_case(rounds);
         run.count_n("race:sets", 3 * rounds as u64);
         run.push("race", true, text);
+    }
+
+    // (e) the real Unix control socket against the stdin dispatcher (pipelined / split writes)
+    {
+        let rt = tokio::runtime::Builder::new_multi_thread().worker_threads(2).enable_all().build().expect("tokio runtime");
+        for k in 0..(40 * scale) {
+            if let Some(text) = socket_case(&g, &mut rng, &mut run, &rt, k as usize) { run.push("socket", true, text); }
+        }
     }
 
     run.note(format!("timeout pool: {:?}", g.tmo_pool));
